@@ -129,12 +129,31 @@ func init() {
 						}
 						return nil, false
 					}})
-				if und2 != "" || len(outsW) != 1 {
-					c.Fail(key, c.P.Pos(ws.Pos()), fmt.Sprintf("UNDECIDED (WriteSCTP): %s, %d paths", und2, len(outsW)))
+				if und2 != "" {
+					c.Fail(key, c.P.Pos(ws.Pos()), "UNDECIDED (WriteSCTP): "+und2)
 					continue
 				}
-				returned := storedSet(outsW[0])
-				okBA := outsW[0].Stored[ba]
+				// only the paths on which the send was attempted (and failed) matter
+				var failed []PEOutcome
+				for _, o := range outsW {
+					if len(o.Called("Association.sendPayloadData")) == 1 {
+						failed = append(failed, o)
+					}
+				}
+				if len(failed) == 0 {
+					c.Fail(key, c.P.Pos(ws.Pos()), "no path through WriteSCTP attempts the send")
+					continue
+				}
+				returned := storedSet(failed[0])
+				okBA := true
+				for _, o := range failed {
+					if storedSet(o) != returned {
+						returned += " / " + storedSet(o)
+					}
+					if !o.Stored[ba] {
+						okBA = false
+					}
+				}
 				c.Check(consumed == returned && okBA, key, c.P.Pos(ws.Pos()), fmt.Sprintf("consumed {%s} = rolled back {%s}; bufferedAmount rolled back", consumed, returned),
 					fmt.Sprintf("packetize consumes {%s} but a failed send gives back {%s} (bufferedAmount rolled back: %v): later messages on the stream get a wrong sequence number", consumed, returned, okBA))
 			}
